@@ -34,6 +34,15 @@ def expandAggregation (d : AggDict) : Except Err AggDict :=
   | none => throw (.value "nodes are in a cycle")
   | some order => pure (order.foldl (fun exp r => exp.set r (expandResource d exp r)) [])
 
+/-- `order` (continuing after the already expanded `done`) lists decomposed resources, each once, each after every decomposed
+    resource it is decomposed into — what `_topological_sort` is for.  Executable, so that every run can check it on what
+    `aggOrder` returned. -/
+def topoOK (d : AggDict) : List String → List String → Bool
+  | _, [] => true
+  | done, r :: rest =>
+    !done.contains r && d.contains r &&
+    (((d.get? r).getD []).keys.all fun t => !d.contains t || done.contains t) && topoOK d (done ++ [r]) rest
+
 /-- contribution of one decomposed resource `r` (with its ORIGINAL value) to the aggregated resources -/
 def applyMapping (agg : List Resource) (r : Resource) (mapping : Dict Expr) : List Resource :=
   mapping.foldl (fun agg sm =>
